@@ -627,7 +627,7 @@ def execute_hashseed(sc):
 def plan(prop, tier):
     if tier == 'quick':
         return {'runs': 4000, 'wall_cap': 900}
-    return {'runs': 400000, 'wall_cap': 6 * 3600}
+    return {'runs': 160000, 'wall_cap': 6 * 3600, 'opt_runs': 8000}
 
 
 def shrink(sc):
